@@ -5,7 +5,7 @@
   the invariant C01 proves for every constructible network) whose attribute dicts have distinct
   keys (`AttrWF`, true of every Python dict).
 -/
-import XgiModel.C19.Lemmas8
+import XgiModel.C19.Lemmas12
 
 namespace Xgi.C19
 open Xgi Xgi.HG
@@ -537,8 +537,9 @@ theorem k_skeleton_closed {s : HG} (h : WF s) (ha : AttrWF s) (order mo : Int)
 
 /-- `from_max_simplices(SC)`: the node set is kept (in order); the edges are exactly the simplices that no
     other simplex strictly contains, in the order of the complex, under the fresh IDs 0,1,2,…, without
-    attributes (any labels: the dict format of `add_edges_from` does no format sniffing). -/
-theorem from_max_simplices_spec {s : HG} (h : WF s) (hne : ∀ e ∈ s.edges, s.mem e ≠ []) :
+    attributes (any labels: the dict format of `add_edges_from` does no format sniffing).  No assumption on
+    empty simplices is needed any more: `maximal()` treats an empty edge as contained in every edge. -/
+theorem from_max_simplices_spec {s : HG} (h : WF s) :
     (fromMaxSimplices .sc s).2 = .ok ∧
     (fromMaxSimplices .sc s).1.nodes = s.nodes ∧
     (fromMaxSimplices .sc s).1.edges =
@@ -548,7 +549,7 @@ theorem from_max_simplices_spec {s : HG} (h : WF s) (hne : ∀ e ∈ s.edges, s.
     (∀ n ∈ s.nodes, (fromMaxSimplices .sc s).1.nattr n = []) ∧
     (fromMaxSimplices .sc s).1.frozen = false ∧ WF (fromMaxSimplices .sc s).1 := by
   unfold fromMaxSimplices
-  simp only [ne_eq, not_true_eq_false, if_false, maximalIds_spec h hne]
+  simp only [ne_eq, not_true_eq_false, if_false, maximalIds_spec h]
   generalize hmx : s.edges.filter (isMax s) = mx at *
   have hmxs : ∀ e ∈ mx, e ∈ s.edges := fun e he => by rw [← hmx] at he; exact (List.mem_filter.1 he).1
   obtain ⟨a1, a2⟩ := addBare_spec s.nodes HG.empty h.nodupN h.noNoneN
@@ -604,6 +605,32 @@ theorem from_max_simplices_spec {s : HG} (h : WF s) (hne : ∀ e ∈ s.edges, s.
 theorem isMax_spec (s : HG) (e : PyId) :
     isMax s e = true ↔ ∀ j ∈ s.edges, (∀ x ∈ s.mem e, x ∈ s.mem j) → ∀ y ∈ s.mem j, y ∈ s.mem e :=
   isMax_iff s e
+
+/-- `H.edges.maximal()` on any well-formed network, empty edges included (since /repo 8eb4626 an empty edge
+    counts as contained in every edge): exactly the edges no other edge strictly contains, in edge order -/
+theorem maximal_spec {s : HG} (h : WF s) : maximalIds s = s.edges.filter (isMax s) := maximalIds_spec h
+
+/-- `H.edges.maximal(strict=True)`: exactly the edges that no other edge contains, not even as an equal set -/
+theorem maximal_strict_spec {s : HG} (h : WF s) (i : PyId) :
+    i ∈ maximalStrictIds s ↔ i ∈ s.edges ∧ ∀ j ∈ s.edges, (∀ x ∈ s.mem i, x ∈ s.mem j) → j = i := by
+  rw [maximalStrictIds_spec h, List.mem_filter]
+  simp only [List.all_eq_true, Bool.or_eq_true, decide_eq_true_eq, Bool.not_eq_eq_eq_not, Bool.not_true,
+    List.all_eq_false]
+  constructor
+  · rintro ⟨hi, hall⟩
+    refine ⟨hi, fun j hj hsub => ?_⟩
+    rcases hall j hj with h1 | ⟨x, hx, hnx⟩
+    · exact h1
+    · exact absurd (hsub x hx) hnx
+  · rintro ⟨hi, hall⟩
+    refine ⟨hi, fun j hj => ?_⟩
+    by_cases hsub : ∀ x ∈ s.mem i, x ∈ s.mem j
+    · exact Or.inl (hall j hj hsub)
+    · right
+      apply Classical.byContradiction; intro hc
+      apply hsub; intro x hx
+      apply Classical.byContradiction; intro hnx
+      exact hc ⟨x, hx, hnx⟩
 
 /-- on anything but a `SimplicialComplex` the function raises the library's error -/
 theorem from_max_simplices_wrong_class (s : HG) : (fromMaxSimplices .hg s).2 = .err .lib := by
@@ -713,8 +740,9 @@ theorem maxEdgeSize_spec (s : HG) (hne : s.edges ≠ []) :
 /-! ### largest_connected_hypergraph(in_place=False) -/
 
 /-- `largest_connected_hypergraph(H)` for a network with at least one node: `c`, the component chosen, is
-    the first of maximal size in `connected_components(H)`; the result is the sub-network induced on `c`
-    (its nodes in the order of `H`, the edges lying inside `c`, members and attributes kept), not frozen. -/
+    the first of maximal size in `connected_components(H)` — a reachability class; the result is the sub-network
+    induced on `c` (its nodes in the order of `H`, every edge of `H` lying inside `c`, members and attributes
+    kept), not frozen, and it is connected: `connected_components` of the result has exactly one element. -/
 theorem lch_spec {s : HG} (h : WF s) (ha : AttrWF s) {c : List PyId} (hc : largestComponent s = some c) :
     (∃ pre post, components s = pre ++ c :: post ∧ (∀ p ∈ pre, p.length < c.length) ∧
         ∀ p ∈ post, p.length ≤ c.length) ∧
@@ -724,8 +752,11 @@ theorem lch_spec {s : HG} (h : WF s) (ha : AttrWF s) {c : List PyId} (hc : large
     (∀ e ∈ (lch s).1.edges, (lch s).1.mem e = s.mem e) ∧
     (∀ n ∈ (lch s).1.nodes, (lch s).1.nattr n = s.nattr n) ∧
     (∀ e ∈ (lch s).1.edges, (lch s).1.eattr e = s.eattr e) ∧
-    (lch s).1.net = s.net ∧ (lch s).1.frozen = false ∧ WF (lch s).1 := by
+    (lch s).1.net = s.net ∧ (lch s).1.frozen = false ∧ WF (lch s).1 ∧
+    (∃ v ∈ s.nodes, ∀ x, x ∈ c ↔ Reach s v x) ∧ Connected (lch s).1 ∧ (components (lch s).1).length = 1 := by
   refine ⟨largestComponent_spec hc, ?_⟩
+  obtain ⟨pre0, post0, hcomp0, _, _⟩ := largestComponent_spec hc
+  obtain ⟨v0, hv0, hcv0⟩ := components_mem c (by rw [hcomp0]; simp)
   unfold lch largestOrEmpty
   rw [hc]; simp only [Option.getD_some]
   obtain ⟨v1, v2, v3, v4, v5, v6, v7, _, v9⟩ := subhypergraph_spec h ha (some c) none
@@ -747,10 +778,26 @@ theorem lch_spec {s : HG} (h : WF s) (ha : AttrWF s) {c : List PyId} (hc : large
     rw [Bool.eq_iff_iff]
     simp only [List.all_eq_true, decide_eq_true_eq, selected_iff, requested]
     exact ⟨fun hh x hx => (hh x hx).2, fun hh x hx => ⟨(h.e2n e he x hx).1, hh x hx⟩⟩
-  refine ⟨k1, by rw [k2.nodes, hn], by rw [k2.edges, he], ?_, ?_, ?_, by rw [k2.net, v7], k3, k5⟩
-  · intro e hee; rw [k2.edges] at hee; rw [k2.mem e hee, v4 e hee]
+  have hmem : ∀ e ∈ r.edges, r.mem e = s.mem e := by
+    intro e hee; rw [k2.edges] at hee; rw [k2.mem e hee, v4 e hee]
+  have hcon : Connected r := by
+    apply induced_connected h hv0
+    · intro x hx; rw [k2.nodes, hn] at hx; rw [← hcv0]; simpa using (List.mem_filter.1 hx).2
+    · intro e hes hall
+      have : e ∈ r.edges := by
+        rw [k2.edges, he, List.mem_filter]; refine ⟨hes, ?_⟩
+        rw [List.all_eq_true]; intro x hx; rw [hcv0]; simpa using hall x hx
+      exact ⟨this, hmem e this⟩
+  refine ⟨k1, by rw [k2.nodes, hn], by rw [k2.edges, he], hmem, ?_, ?_, by rw [k2.net, v7], k3, k5,
+    ⟨v0, hv0, fun x => by rw [hcv0]; exact plainBfs_spec h hv0 x⟩, hcon, ?_⟩
   · intro n hnn; rw [k2.nodes] at hnn; rw [k2.nattr n hnn, v5 n hnn]
   · intro e hee; rw [k2.edges] at hee; rw [k2.eattr e hee, v6 e hee]
+  · apply (components_of_connected k5 hcon).2.1
+    rw [k2.nodes, hn]
+    intro hnil
+    have : v0 ∈ s.nodes.filter (· ∈ c) := by
+      rw [List.mem_filter]; exact ⟨hv0, by rw [hcv0]; simpa using (plainBfs_closed h hv0).1⟩
+    rw [hnil] at this; cases this
 
 /-! ### convert_labels_to_integers -/
 
@@ -823,11 +870,13 @@ theorem relabel_frozen {s : HG} (hf : s.frozen = true) (labelAttr : String) :
 
 /-! ### cleanup
 
-  `cleanup'` is `Hypergraph.cleanup(in_place=True)` with the repaired connected step (the null network is left
-  alone, see proposed_fixes/C19-cleanup-null-network.diff); flags in the order of the Python signature:
-  `isolates singletons multiedges connected relabel`, `true` = allowed / requested.  All statements are for an
-  unfrozen network satisfying the invariant of C01 and a run that does not raise (the only raise left is the
-  `TypeError` of `sorted` on a class of repeated edges whose IDs are not mutually comparable). -/
+  `cleanup'` is `Hypergraph.cleanup(in_place=True)` (definitionally the pipeline of `HG.cleanup`); flags in the
+  order of the Python signature: `isolates singletons multiedges connected relabel`, `true` = allowed /
+  requested.  All statements are for an unfrozen network satisfying the invariant of C01 (`Live`).
+  `cleanup_outcome` says what a run can do: return `ok` (never a warning), or — only with `multiedges=False` —
+  raise the `TypeError` of `sorted` on a class of repeated edges whose IDs are not mutually comparable, with
+  nothing changed.  The post-condition theorems below take a run that does not raise; `cleanup_post_no_multiedges`
+  and `cleanup_type_error_iff` state both branches. -/
 
 /-- `isolates=False`: no isolated node is left — for every setting of the other four flags -/
 theorem cleanup_post_no_isolates {s : HG} (hs : Live s) (b c d e : Bool) (r : HG × Outcome)
@@ -849,23 +898,99 @@ theorem cleanup_post_no_singletons {s : HG} (hs : Live s) (a c d e : Bool) (r : 
   obtain ⟨_, _, r3, _⟩ := stepR_spec e c2
   rw [h1]; exact r3 (c4.noSing (i4.noSing (s3 rfl)))
 
-/-- `multiedges=False`: no two edges with the same member set are left — for every setting of the other four
-    flags (for a run that returns without error and without warning; the model's only warning would be an
-    already existing merged ID, which does not occur) -/
-theorem cleanup_post_no_multiedges {s : HG} (hs : Live s) (a b d e : Bool) (r : HG × Outcome)
-    (hr : cleanup' s a b false d e = some r) (hok : r.2 = .ok) : NoMulti r.1 := by
-  obtain ⟨p0, hp0, _, hl0, h1, h2⟩ := cleanup_chain hs a b false d e r hr (by rw [hok]; rfl)
-  simp only [Bool.false_eq_true, if_false] at hp0
-  have hp : p0 = (p0.1, .ok) := by
-    have : p0.2 = .ok := by rw [← h2, hok]
-    exact Prod.ext rfl this
-  rw [hp] at hp0
-  obtain ⟨m1, _⟩ := merge_noMulti hs p0.1 hp0
-  obtain ⟨_, s2, _, s4, _⟩ := stepS_spec b hl0
-  obtain ⟨_, i2, _, i4, _⟩ := stepI_spec a s2
-  obtain ⟨_, c2, _, c4, _⟩ := stepC_spec d i2
-  obtain ⟨_, _, _, _, r5, _⟩ := stepR_spec e c2
-  rw [h1]; exact r5 (c4.noMulti (i4.noMulti (s4.noMulti m1)))
+/-- every run of `cleanup` on an unfrozen well-formed network, whatever the five flags: the call is inside the
+    model and has one of two outcomes.  Either it returns without any warning (the `union` warning of
+    `merge_duplicate_edges` belongs to `merge_rule="union"`, which `cleanup` does not use) and the result is the
+    relabelling (if requested) of a network `t` that arises from the input only by deleting nodes and edges
+    and, with `multiedges=False`, merging classes of repeated edges (`DeletedMerged`); or — only with
+    `multiedges=False` — `sorted` raises `TypeError` on a class of repeated edges whose IDs are not all of one
+    sortable kind, before anything was changed. -/
+theorem cleanup_outcome {s : HG} (hs : Live s) (a b c d e : Bool) :
+    ∃ r, cleanup' s a b c d e = some r ∧
+      ((r.2 = .ok ∧ ∃ t, DeletedMerged s t (!c) ∧ Live t ∧
+          (e = false → r.1 = t) ∧ (e = true → Relabelled t r.1 "label")) ∨
+       (c = false ∧ r = (s, .err .typeError) ∧
+          ∃ x ∈ s.edges, 1 < (dupsOf s x).length ∧ sortedIds (dupsOf s x) = none)) := by
+  obtain ⟨r, hr, h⟩ := cleanup_total hs a b c d e
+  refine ⟨r, hr, ?_⟩
+  rcases h with ⟨hok, t, hdm, hl, hrt, _⟩ | h
+  · left
+    obtain ⟨_, _, _, _, _, r6, r7⟩ := stepR_spec e hl
+    exact ⟨hok, t, hdm, hl, fun he => by rw [hrt, r7 he], fun he => by rw [hrt]; exact r6 he⟩
+  · exact Or.inr h
+
+/-- `multiedges=False`, for every setting of the other four flags and without assuming anything about the
+    outcome: the call either returns `ok` and no two edges with the same member set are left, or it raises
+    `TypeError` — exactly when some class of repeated edges has IDs that Python's `sorted` cannot order —
+    and then the network is untouched. -/
+theorem cleanup_post_no_multiedges {s : HG} (hs : Live s) (a b d e : Bool) :
+    ∃ r, cleanup' s a b false d e = some r ∧
+      ((r.2 = .ok ∧ NoMulti r.1) ∨
+       (r = (s, .err .typeError) ∧
+          ∃ x ∈ s.edges, 1 < (dupsOf s x).length ∧ sortedIds (dupsOf s x) = none)) := by
+  obtain ⟨r, hr, h⟩ := cleanup_total hs a b false d e
+  refine ⟨r, hr, ?_⟩
+  rcases h with ⟨hok, t, _, hl, hrt, hnm⟩ | ⟨_, h⟩
+  · left
+    obtain ⟨_, _, _, _, r5, _⟩ := stepR_spec e hl
+    exact ⟨hok, by rw [hrt]; exact r5 (hnm rfl)⟩
+  · exact Or.inr h
+
+/-- the two branches exclude each other: the `TypeError` occurs exactly when some class of repeated edges has
+    unsortable IDs (and `sortedIds_unsortable_iff` says what that means) -/
+theorem cleanup_type_error_iff {s : HG} (hs : Live s) (a b d e : Bool) :
+    (∃ m, cleanup' s a b false d e = some (m, .err .typeError)) ↔
+      ∃ x ∈ s.edges, 1 < (dupsOf s x).length ∧ sortedIds (dupsOf s x) = none := by
+  obtain ⟨r, hr, h⟩ := cleanup_total hs a b false d e
+  constructor
+  · rintro ⟨m, hm⟩
+    rw [hm] at hr; simp only [Option.some.injEq] at hr
+    rcases h with ⟨hok, _⟩ | ⟨_, _, hx⟩
+    · rw [← hr] at hok; cases hok
+    · exact hx
+  · intro hx
+    rcases h with ⟨hok, t, hdm, _, _, _⟩ | ⟨_, hre, _⟩
+    · -- the merge succeeded, so every class was sortable
+      exfalso
+      obtain ⟨x, hxe, hlen, hnone⟩ := hx
+      rcases merge_total hs with ⟨m, hm, hM⟩ | ⟨hm, _⟩
+      · obtain ⟨y, hy, hym⟩ := hM.covers_all x hxe
+        have hyd := (hM.edges y).1 hy
+        have : dupsOf s y = dupsOf s x := dupsOf_congr hym
+        rw [this] at hyd
+        have h2 := hyd.2
+        unfold firstSorted at h2
+        rw [hnone] at h2; cases h2
+      · rw [cleanup'_eq] at hr
+        simp only [Bool.false_eq_true, if_false, hm, Option.map_some, Option.some.injEq] at hr
+        rw [andThen_err (s, .err .typeError) _ rfl, andThen_err (s, .err .typeError) _ rfl,
+          andThen_err (s, .err .typeError) _ rfl, andThen_err (s, .err .typeError) _ rfl] at hr
+        rw [← hr] at hok; cases hok
+    · exact ⟨s, by rw [hr, hre]⟩
+
+/-- when Python's `sorted` raises on a list of IDs: at least two of them, not all of one sortable kind
+    (ints, strings, tuples of ints, tuples of strings) -/
+theorem sortedIds_unsortable_iff (l : List PyId) :
+    sortedIds l = none ↔ 1 < l.length ∧ ¬ ∃ c, goodClass c ∧ ∀ y ∈ l, idClass y = c :=
+  sortedIds_eq_none_iff l
+
+/-- the representative the merge keeps (`rename="first"`): the first of `sorted(IDs of the class)` is an ID of
+    the class than which none of the class is smaller -/
+theorem merge_representative_min {g : List PyId} {x : PyId} (h : firstSorted g = some x) :
+    x ∈ g ∧ ∀ y ∈ g, idLt y x = false := firstSorted_min h
+
+/-- `merge_duplicate_edges()` with the defaults, by itself: it raises `TypeError` and changes nothing, or returns
+    `ok` a network with the same nodes, node attributes and network attributes in which exactly one edge of
+    every class of edges with equal member sets survives — the one with the smallest ID, under that ID, with its
+    member set and (merge rule "first") its own attributes; unrepeated edges keep their place and member lists -/
+theorem merge_duplicate_edges_spec {s : HG} (hs : Live s) :
+    (∃ m, mergeDuplicateEdges s .first .first none = some (m, .ok) ∧ Merged s m ∧ NoMulti m ∧
+        ∀ x ∈ s.edges, ∃ y ∈ m.edges, ∀ z, z ∈ s.mem y ↔ z ∈ s.mem x) ∨
+    (mergeDuplicateEdges s .first .first none = some (s, .err .typeError) ∧
+      ∃ x ∈ s.edges, 1 < (dupsOf s x).length ∧ sortedIds (dupsOf s x) = none) := by
+  rcases merge_total hs with ⟨m, hm, hM⟩ | h
+  · exact Or.inl ⟨m, hm, hM, hM.noMulti, hM.covers_all⟩
+  · exact Or.inr h
 
 /-- `relabel=True`: the node and edge labels are exactly 0..n-1 and 0..m-1, in order — for every setting of
     the other four flags -/
@@ -887,14 +1012,41 @@ theorem cleanup_post_labels {s : HG} (hs : Live s) (a b c d : Bool) (r : HG × O
   · rw [rl.nodes, map_pos _ hw.nodupN]; simp
   · rw [rl.edges, map_pos _ hw.nodupE]; simp
 
-/-- `connected=True` (partial): what is left is the node set chosen by `max(connected_components(…), key=len)`
-    on the network after the first three steps — a BFS component, closed under the edges — together with the
-    edges inside it; nothing else is touched by this step.  That the *result* has a single component (BFS from
-    its first node reaches everything) is not proved here; the harness checks it on every run. -/
-theorem cleanup_post_connected_partial {s : HG} (hs : Live s) (a b c : Bool) (r : HG × Outcome)
+/-- `_plain_bfs(H, v)` is exactly the set of nodes joined to `v` by a chain of edges (`Reach` = reflexive
+    transitive closure of "lie in a common edge"); the fuel `len(nodes) + 1` of the model's level loop suffices -/
+theorem bfs_spec {s : HG} (h : WF s) {v : PyId} (hv : v ∈ s.nodes) (x : PyId) :
+    x ∈ plainBfs s v ↔ Reach s v x := plainBfs_spec h hv x
+
+/-- `connected_components(H)` is the partition of the nodes into reachability classes -/
+theorem components_spec {s : HG} (h : WF s) :
+    (∀ c ∈ components s, ∃ v ∈ s.nodes, ∀ x, x ∈ c ↔ Reach s v x) ∧
+    (components s).Pairwise (fun c c' => ∀ x ∈ c, x ∉ c') ∧
+    (∀ v ∈ s.nodes, ∃ c ∈ components s, v ∈ c) := components_partition h
+
+/-- "connected" in the sense of `connected_components`: at most one component, iff every two nodes are joined
+    by a chain of edges -/
+theorem connected_iff_single_component {s : HG} (h : WF s) : Connected s ↔ (components s).length ≤ 1 :=
+  ⟨fun hc => (components_of_connected h hc).1, connected_of_components h⟩
+
+/-- `connected=True`, at full strength and for every setting of the other four flags: the result is connected —
+    every two of its nodes are joined by a chain of its edges, `connected_components` of the result has at most
+    one element, exactly one when a node is left, and that component is the whole node set. -/
+theorem cleanup_post_connected {s : HG} (hs : Live s) (a b c e : Bool) (r : HG × Outcome)
+    (hr : cleanup' s a b c true e = some r) (hne : r.2.isErr = false) :
+    Connected r.1 ∧ (components r.1).length ≤ 1 ∧ (r.1.nodes ≠ [] → (components r.1).length = 1) ∧
+    ∀ comp ∈ components r.1, ∀ x, x ∈ comp ↔ x ∈ r.1.nodes := by
+  obtain ⟨hc, hw⟩ := cleanup_connected hs a b c e r hr hne
+  exact ⟨hc, components_of_connected hw hc⟩
+
+/-- which connected piece is kept: the node set chosen by `max(connected_components(…), key=len)` on the
+    network `t` after the first three steps — the first reachability class of maximal size (nothing on the null
+    network) — together with every edge of `t` lying inside it; nothing else is touched by this step. -/
+theorem cleanup_connected_step_spec {s : HG} (hs : Live s) (a b c : Bool) (r : HG × Outcome)
     (hr : cleanup' s a b c true false = some r) (hne : r.2.isErr = false) :
     ∃ t : HG, Live t ∧ EdgeClosed t (largestOrEmpty t) ∧
-      ((largestOrEmpty t = [] ∧ t.nodes = []) ∨ largestOrEmpty t ∈ components t) ∧
+      ((largestOrEmpty t = [] ∧ t.nodes = []) ∨
+        (∃ pre post, components t = pre ++ largestOrEmpty t :: post ∧
+          (∀ p ∈ pre, p.length < (largestOrEmpty t).length) ∧ ∀ p ∈ post, p.length ≤ (largestOrEmpty t).length)) ∧
       r.1.nodes = t.nodes.filter (· ∈ largestOrEmpty t) ∧
       r.1.edges = t.edges.filter (fun e => (t.mem e).all (· ∈ largestOrEmpty t)) ∧
       (∀ e ∈ r.1.edges, r.1.mem e = t.mem e) := by
@@ -912,50 +1064,113 @@ theorem cleanup_post_connected_partial {s : HG} (hs : Live s) (a b c : Bool) (r 
     | some c => exact (largestComponent_closed i2.1.1 hc).1
   · unfold largestOrEmpty
     cases hc : largestComponent t with
-    | none =>
-      left; refine ⟨rfl, ?_⟩
-      -- no component at all: there is no node
-      rw [largestComponent_eq] at hc
-      cases hcomp : components t with
-      | nil =>
-        -- the fold adds a component for the first node
-        cases hn : t.nodes with
-        | nil => rfl
-        | cons v rest =>
-          exfalso
-          have : components t ≠ [] := by
-            unfold components; rw [hn]; simp only [List.foldl_cons, List.not_mem_nil, if_false, List.nil_append]
-            intro h0
-            have key : ∀ (l : List PyId) (acc : List (List PyId) × List PyId), acc.1 ≠ [] →
-                (l.foldl (fun (acc : List (List PyId) × List PyId) v =>
-                  if v ∈ acc.2 then acc else (acc.1 ++ [plainBfs t v], acc.2 ++ plainBfs t v)) acc).1 ≠ [] := by
-              intro l
-              induction l with
-              | nil => intro acc h; exact h
-              | cons a l ih =>
-                intro acc h; simp only [List.foldl_cons]; apply ih
-                split
-                · exact h
-                · simp
-            exact key rest _ (by simp) h0
-          exact this hcomp
-      | cons a l =>
-        rw [hcomp] at hc; simp only [List.foldl_cons] at hc
-        have hb : better none a = some a := rfl
-        rw [hb] at hc
-        exfalso
-        have key : ∀ (l : List (List PyId)) (b : List PyId), l.foldl better (some b) ≠ none := by
-          intro l
-          induction l with
-          | nil => intro b h; cases h
-          | cons x l ih =>
-            intro b; simp only [List.foldl_cons]
-            unfold better; simp only []; split <;> exact ih _
-        exact key l a hc
-    | some c =>
-      right
-      obtain ⟨pre, post, hcomp, _, _⟩ := largestComponent_spec hc
-      rw [hcomp]; simp
+    | none => exact Or.inl ⟨rfl, largestComponent_none hc⟩
+    | some c => exact Or.inr (largestComponent_spec hc)
+
+/-- "only by deleting or merging", for every flag setting, with the duplicate merge and with the relabelling:
+    a run that does not raise returns `ok`, and its result is `t` itself (`relabel=False`) or the integer
+    relabelling of `t` (`relabel=True`: `Relabelled`, the isomorphism of `relabel_iso` that stores every old ID
+    under "label"), where `t` arises from the input only by deletions and the merge (`DeletedMerged`): every
+    surviving node is an original node with its attributes, in the original order; every surviving edge is an
+    original edge under its own ID with exactly its member set and its attributes; with `multiedges=True` the
+    edges also keep their order and member lists; with `multiedges=False` a surviving edge is the
+    representative `merge_duplicate_edges` keeps — the smallest ID of its class of edges with equal member
+    sets (`merge_representative_min`), carrying that edge's own attributes (merge rule "first"). -/
+theorem cleanup_only_deletes_or_merges {s : HG} (hs : Live s) (a b c d e : Bool) (r : HG × Outcome)
+    (hr : cleanup' s a b c d e = some r) (hne : r.2.isErr = false) :
+    r.2 = .ok ∧ ∃ t, DeletedMerged s t (!c) ∧ Live t ∧
+      (e = false → r.1 = t) ∧ (e = true → Relabelled t r.1 "label") := by
+  obtain ⟨r', hr', h⟩ := cleanup_outcome hs a b c d e
+  rw [hr] at hr'; simp only [Option.some.injEq] at hr'; subst hr'
+  rcases h with h | ⟨_, hre, _⟩
+  · exact h
+  · rw [hre] at hne; cases hne
+
+/-- exactly what `cleanup` removes — nothing but what the requested guarantees exclude.  A run that does not
+    raise passes through the networks `m` (after the merge: the input itself with `multiedges=True`, else
+    `Merged`: one edge per class of equal member sets), `t1` (`singletons=False`: exactly the one-member edges
+    go), `t2` (`isolates=False`: exactly the nodes in no remaining edge go), `t3` (`connected=True`: exactly the
+    nodes outside the first largest reachability class of `t2` go, and with them exactly the edges not inside
+    it), each a sub-network of the previous one with members and attributes untouched (`SubNet`), and returns
+    `t3` or its integer relabelling. -/
+theorem cleanup_exact {s : HG} (hs : Live s) (a b c d e : Bool) (r : HG × Outcome)
+    (hr : cleanup' s a b c d e = some r) (hne : r.2.isErr = false) :
+    ∃ m t1 t2 t3 : HG,
+      ((c = true ∧ m = s) ∨ (c = false ∧ Merged s m)) ∧
+      SubNet m t1 ∧ t1.nodes = m.nodes ∧
+        t1.edges = m.edges.filter (fun x => b || decide ((m.mem x).length ≠ 1)) ∧
+      SubNet t1 t2 ∧ t2.edges = t1.edges ∧
+        t2.nodes = t1.nodes.filter (fun n => a || t1.edges.any (fun x => decide (n ∈ t1.mem x))) ∧
+      SubNet t2 t3 ∧ t3.nodes = t2.nodes.filter (fun n => !d || decide (n ∈ largestOrEmpty t2)) ∧
+        t3.edges = t2.edges.filter (fun x => !d || (t2.mem x).all (· ∈ largestOrEmpty t2)) ∧
+        ((t2.nodes = [] ∧ largestOrEmpty t2 = []) ∨
+          ((∃ v ∈ t2.nodes, ∀ x, x ∈ largestOrEmpty t2 ↔ Reach t2 v x) ∧
+            ∃ pre post, components t2 = pre ++ largestOrEmpty t2 :: post ∧
+              (∀ p ∈ pre, p.length < (largestOrEmpty t2).length) ∧
+              ∀ p ∈ post, p.length ≤ (largestOrEmpty t2).length)) ∧
+      Live t3 ∧ (e = false → r.1 = t3) ∧ (e = true → Relabelled t3 r.1 "label") := by
+  obtain ⟨p0, hp0, herr, hl0, h1, _⟩ := cleanup_chain hs a b c d e r hr hne
+  have hm : (c = true ∧ p0.1 = s) ∨ (c = false ∧ Merged s p0.1) := by
+    cases c with
+    | true => simp only [if_true, Option.some.injEq] at hp0; rw [← hp0]; exact Or.inl ⟨rfl, rfl⟩
+    | false =>
+      simp only [Bool.false_eq_true, if_false] at hp0
+      rcases merge_total hs with ⟨m, hmm, hM⟩ | ⟨hmm, _⟩
+      · rw [hmm] at hp0; simp only [Option.some.injEq] at hp0; rw [← hp0]; exact Or.inr ⟨rfl, hM⟩
+      · rw [hmm] at hp0; simp only [Option.some.injEq] at hp0; rw [← hp0] at herr; cases herr
+  obtain ⟨_, s2, _, s4, _⟩ := stepS_spec b hl0
+  obtain ⟨se1, se2⟩ := stepS_exact b hl0
+  obtain ⟨_, i2, _, i4, _⟩ := stepI_spec a s2
+  obtain ⟨ie1, ie2⟩ := stepI_exact a s2
+  obtain ⟨_, c2, _, c4, _⟩ := stepC_spec d i2
+  obtain ⟨ce1, ce2⟩ := stepC_exact d i2
+  obtain ⟨_, _, _, _, _, r6, r7⟩ := stepR_spec e c2
+  exact ⟨p0.1, _, _, _, hm, s4, se1, se2, i4, ie1, ie2, c4, ce1, ce2, largestOrEmpty_spec i2.1.1, c2,
+    fun he => by rw [h1, r7 he], fun he => by rw [h1]; exact r6 he⟩
+
+/-- spelled out for `relabel=True`: every node `i` of the result is position `i` of a surviving original node
+    `n` (its old ID readable under "label", its other attributes those of `n`), and every edge `j` of the result
+    is position `j` of a surviving original edge `x`, whose members are exactly the positions of the members
+    of `x` in the original network -/
+theorem cleanup_relabelled_survivors {s : HG} (hs : Live s) (ha : AttrWF s) (a b c d : Bool) (r : HG × Outcome)
+    (hr : cleanup' s a b c d true = some r) (hne : r.2.isErr = false) :
+    ∃ t, DeletedMerged s t (!c) ∧
+      r.1.nodes = t.nodes.map (pos t.nodes) ∧ r.1.edges = t.edges.map (pos t.edges) ∧
+      (∀ n ∈ t.nodes, n ∈ s.nodes ∧
+        r.1.nattr (pos t.nodes n) = (s.nattr n).set "label" (relabel.idVal n)) ∧
+      (∀ x ∈ t.edges, x ∈ s.edges ∧
+        (∀ z, z ∈ t.nodes → (pos t.nodes z ∈ r.1.mem (pos t.edges x) ↔ z ∈ s.mem x)) ∧
+        (∀ z ∈ s.mem x, z ∈ t.nodes) ∧
+        (r.1.mem (pos t.edges x)).length = (s.mem x).length ∧
+        r.1.eattr (pos t.edges x) = (s.eattr x).set "label" (relabel.idVal x)) := by
+  obtain ⟨_, t, hdm, hl, _, hrel⟩ := cleanup_only_deletes_or_merges hs a b c d true r hr hne
+  have hrel := hrel rfl
+  have hw := hl.1.1
+  have hat : AttrWF t := by
+    constructor
+    · intro n hn; rw [hdm.nattr n hn]; exact ha.nattr n (hdm.nodes.subset hn)
+    · intro x hx; rw [hdm.eattr ha x hx]; exact ha.eattr x (hdm.edges x hx)
+    · rw [hdm.net]; exact ha.net
+  refine ⟨t, hdm, hrel.nodes, hrel.edges, ?_, ?_⟩
+  · intro n hn
+    exact ⟨hdm.nodes.subset hn, by rw [hrel.nattr hat n hn, hdm.nattr n hn]⟩
+  · intro x hx
+    refine ⟨hdm.edges x hx, ?_, ?_, ?_, by rw [hrel.eattr hat x hx, hdm.eattr ha x hx]⟩
+    · intro z hz
+      rw [hrel.mem x hx, List.mem_map, ← hdm.mem x hx z]
+      constructor
+      · rintro ⟨y, hy, heq⟩
+        have := pos_inj _ hw.nodupN (hw.e2n x hx y hy).1 hz heq
+        rw [← this]; exact hy
+      · intro hz'; exact ⟨z, hz', rfl⟩
+    · intro z hz; exact (hw.e2n x hx z ((hdm.mem x hx z).2 hz)).1
+    · rw [hrel.mem x hx, List.length_map]
+      -- equal sets, both duplicate-free
+      have n1 := hw.setE x hx
+      have n2 := hs.1.1.setE x (hdm.edges x hx)
+      apply Nat.le_antisymm
+      · exact List.Nodup.length_le_of_subset n1 (fun z hz => (hdm.mem x hx z).1 hz)
+      · exact List.Nodup.length_le_of_subset n2 (fun z hz => (hdm.mem x hx z).2 hz)
 
 /-- "only by deleting": without the merge and the relabelling, the result is a sub-network of the input — a
     sub-list of its nodes and of its edges, every surviving edge with exactly its members and attributes, every
@@ -1026,42 +1241,8 @@ theorem lccInPlace_null {t : HG} (hc : largestComponent t = none) :
   unfold lccInPlace' largestOrEmpty; rw [hc]
   simp only [Option.getD_none, List.not_mem_nil, not_false_eq_true, decide_true]
   rw [guardF_live _ _ hf]
-  -- no component means no node (see `cleanup_post_connected_partial`), in any case nothing is removed
-  have hn : t.nodes = [] := by
-    cases hn : t.nodes with
-    | nil => rfl
-    | cons v rest =>
-      exfalso
-      rw [largestComponent_eq] at hc
-      have hne : components t ≠ [] := by
-        unfold components; rw [hn]; simp only [List.foldl_cons, List.not_mem_nil, if_false, List.nil_append]
-        have key : ∀ (l : List PyId) (acc : List (List PyId) × List PyId), acc.1 ≠ [] →
-            (l.foldl (fun (acc : List (List PyId) × List PyId) v =>
-              if v ∈ acc.2 then acc else (acc.1 ++ [plainBfs t v], acc.2 ++ plainBfs t v)) acc).1 ≠ [] := by
-          intro l
-          induction l with
-          | nil => intro acc h; exact h
-          | cons a l ih =>
-            intro acc h; simp only [List.foldl_cons]; apply ih
-            split
-            · exact h
-            · simp
-        exact key rest _ (by simp)
-      cases hcomp : components t with
-      | nil => exact hne hcomp
-      | cons a l =>
-        rw [hcomp] at hc; simp only [List.foldl_cons] at hc
-        have hb : better none a = some a := rfl
-        rw [hb] at hc
-        have key : ∀ (l : List (List PyId)) (b : List PyId), l.foldl better (some b) ≠ none := by
-          intro l
-          induction l with
-          | nil => intro b h; cases h
-          | cons x l ih =>
-            intro b; simp only [List.foldl_cons]
-            unfold better; simp only []; split <;> exact ih _
-        exact key l a hc
-  rw [hn]; rfl
+  -- no component means no node, so nothing is removed
+  rw [largestComponent_none hc]; rfl
 
 /-! ### the `in_place=False` variants work on `self.copy()` -/
 
@@ -1134,4 +1315,55 @@ example : ((cleanup' demo false false false true true).map (fun r => (r.2, r.1.n
 /-- the repaired connected step leaves the null network alone (before the repair the code raised `ValueError` here) -/
 example : ((cleanup' HG.empty false false false true true).map (·.2)) = some .ok := by decide
 example : ((HG.cleanup HG.empty false false false true true).map (·.2)) = some .ok := by decide
+/-- nodes 1..6; edges 7={1,2} and 3={2,1} (a class of repeated edges, attributes w=7 / w=3), "a"={2,3}, 9={4}, 10={5,6} -/
+private def demoM : HG :=
+  (addEdgesFrom (addNodesFrom HG.empty
+      [(.int 1, none), (.int 2, none), (.int 3, none), (.int 4, none), (.int 5, none), (.int 6, none)] []).1 .f4
+    [{ members := [.int 1, .int 2], idx := some (.int 7), attr := [("w", .sc (.int 7))] },
+     { members := [.int 2, .int 1], idx := some (.int 3), attr := [("w", .sc (.int 3))] },
+     { members := [.int 2, .int 3], idx := some (.str "a"), attr := [] },
+     { members := [.int 4], idx := some (.int 9), attr := [] },
+     { members := [.int 5, .int 6], idx := some (.int 10), attr := [] }] []).1
+
+/-- a class of repeated edges with the IDs 5 and "x", which `sorted` cannot order -/
+private def demoU : HG :=
+  (addEdgesFrom (addNodesFrom HG.empty [(.int 1, none), (.int 2, none)] []).1 .f4
+    [{ members := [.int 1, .int 2], idx := some (.int 5), attr := [] },
+     { members := [.int 1, .int 2], idx := some (.str "x"), attr := [] }] []).1
+
+/-- an empty edge 0, the repeated edges 1 = 3 = {1,2}, and 2 = {1} -/
+private def demoE : HG :=
+  (addEdgesFrom (addNodesFrom HG.empty [(.int 1, none), (.int 2, none)] []).1 .f4
+    [{ members := [], idx := some (.int 0), attr := [] },
+     { members := [.int 1, .int 2], idx := some (.int 1), attr := [] },
+     { members := [.int 1], idx := some (.int 2), attr := [] },
+     { members := [.int 2, .int 1], idx := some (.int 3), attr := [] }] []).1
+
+example : Live demoM := ⟨addEdgesFrom_inv (addNodesFrom_inv empty_inv _ _) _ _ _, by decide⟩
+example : AttrWF demoM := ⟨by decide, by decide, by decide⟩
+example : Live demoU := ⟨addEdgesFrom_inv (addNodesFrom_inv empty_inv _ _) _ _ _, by decide⟩
+example : Inv demoE := addEdgesFrom_inv (addNodesFrom_inv empty_inv _ _) _ _ _
+-- maximal() with an empty edge: it is contained in every edge; the repeated maximal edges both qualify
+example : maximalIds demoE = [.int 1, .int 3] := by decide
+example : maximalStrictIds demoE = [] := by decide
+-- three components before, one after; the merge keeps the smaller ID 3 with its own attributes and the member
+-- list of the first edge of the class
+example : components demoM = [[.int 1, .int 2, .int 3], [.int 4], [.int 5, .int 6]] := by decide
+example : dupsOf demoM (.int 3) = [.int 7, .int 3] := by decide
+example : firstSorted [.int 7, .int 3] = some (.int 3) := by decide
+example : firstSorted [.int 5, .str "x"] = none := by decide
+example : ((cleanup' demoM false false false true false).map (fun r => (r.2, r.1.nodes, r.1.edges))) =
+    some (.ok, [.int 1, .int 2, .int 3], [.str "a", .int 3]) := by decide
+example : ((cleanup' demoM false false false true false).map (fun r => (r.1.edges.map r.1.mem, components r.1))) =
+    some ([[.int 2, .int 3], [.int 1, .int 2]], [[.int 1, .int 2, .int 3]]) := by decide
+example : ((cleanup' demoM false false false true false).map (fun r => r.1.edges.map r.1.eattr)) =
+    some [[], [("w", .sc (.int 3))]] := by decide
+example : ((cleanup' demoM false false false true true).map
+      (fun r => (r.2, r.1.nodes, r.1.edges, r.1.edges.map r.1.mem, (components r.1).length))) =
+    some (.ok, [.int 0, .int 1, .int 2], [.int 0, .int 1], [[.int 1, .int 2], [.int 0, .int 1]], 1) := by decide
+-- the `TypeError` branch: nothing is changed
+example : ((cleanup' demoU true true false false false).map (fun r => (r.2, r.1.edges))) =
+    some (.err .typeError, [.int 5, .str "x"]) := by decide
+example : sortedIds (dupsOf demoU (.int 5)) = none := by decide
+example : (lch demoM).1.nodes = [.int 1, .int 2, .int 3] ∧ (components (lch demoM).1).length = 1 := by decide
 end Xgi.C19
